@@ -75,7 +75,14 @@ def gen_case(rng, tier):
     probes = [{'ref': rng.choice(['file', 'parent', 'parent(0)', 'parent(1)', 'parent(2)']), 'parts': [rng.choice(['x', 'data.bin', 'q/r'])]} for _ in range(rng.randrange(0, 3))]
     probe_doc = rng.randrange(n)
     split = sorted(rng.sample(range(1, n), rng.randrange(0, n))) if n > 1 else []
-    return {'texts': texts, 'files': files, 'probes': probes, 'probe_doc': probe_doc, 'key': rng.choice(POOL + ['inc']), 'nest_split': split,
+    order = list(range(n))
+    if rng.random() < 0.35:
+        # the same file reached more than once in one build
+        for _ in range(rng.choice([1, 1, 2])):
+            order.insert(rng.randrange(1, len(order) + 1), rng.randrange(n))
+    ov = gen.mutate_doc(rng, emit.strip_flags(docs[0]), 2, kinds=('s',), pool_s=POOL, hostile=False, marker=gen.Marker('ov'))
+    return {'order': order, 'doc0': docs[0], 'override': ov,
+            'texts': texts, 'files': files, 'probes': probes, 'probe_doc': probe_doc, 'key': rng.choice(POOL + ['inc']), 'nest_split': split,
             'decoy_mode': rng.choice(['none', 'decoy', 'decoy', 'cwd_only']), 'cwd_only_idx': rng.randrange(n)}
 
 
@@ -147,9 +154,17 @@ def run(case):
         probes = case['probes'] if pt is not None else []
         if pt is not None:
             texts[case['probe_doc']] = pt
-        paths = [os.path.join(root, 'tree', f['dir'], f['name']) for f in case['files']]
-        for p, t in zip(paths, texts):
+        upaths = [os.path.join(root, 'tree', f['dir'], f['name']) for f in case['files']]
+        for p, t in zip(upaths, texts):
             write(p, t)
+        order = case.get('order') or list(range(n))
+        utexts = texts
+        paths = [upaths[i] for i in order]          # the delivery sequence (a file may occur more than once)
+        texts = [utexts[i] for i in order]
+        if len(order) != n:
+            feats.append('repeated_file')
+            probes = []
+        n_seq = len(order)
         mdir = os.path.join(root, 'tree', 'm')
         os.makedirs(mdir, exist_ok=True)
         cwd = os.path.join(root, 'cwd')
@@ -206,8 +221,8 @@ def run(case):
         write(master2, ''.join(f'---\n!include {rel(mdir, p)}\n' for p in paths))
         compare('n_includes', lambda: Config.build(master2), paths[case['probe_doc']])
         # ---------------- (v) recursive mixture: groups of documents, each group a file that is multi-doc or includes its members
-        if n >= 2:
-            cuts = [0] + case['nest_split'] + [n]
+        if n_seq >= 2:
+            cuts = [0] + [c for c in case['nest_split'] if c < n_seq] + [n_seq]
             groups = [list(range(a, b)) for a, b in zip(cuts[:-1], cuts[1:]) if b > a]
             gfiles = []
             for gi, g in enumerate(groups):
@@ -224,6 +239,18 @@ def run(case):
             master4 = os.path.join(mdir, 'master4.yaml')
             write(master4, '!include [' + ', '.join(rel(mdir, p) for p in paths[1:]) + ']\n')
             compare('source_then_include', lambda: Config.build(paths[0], master4), paths[case['probe_doc']])
+        # ---------------- one file under two keys, then an override of one of them: inclusions must not share nodes
+        if case.get('doc0') and case['doc0'].get('new') is not False:
+            k1, k2 = 'first', 'second'
+            d0, ov = case['doc0'], case['override']
+            ref = observe(lambda: lib.build([emit.emit(M([[k1, d0], [k2, d0]]), 'flow'), emit.emit(M([[k1, ov]]), 'flow')]))
+            master7 = os.path.join(mdir, 'master7.yaml')
+            write(master7, f'{k1}: !include {rel(mdir, upaths[0])}\n{k2}: !include {rel(mdir, upaths[0])}\n---\n' + emit.emit(M([[k1, ov]]), 'block'))
+            got7 = observe(lambda: Config.build(master7))
+            feats.append('variant_two_keys_same_file')
+            if ref[0] == 'ok' and with_probe(utexts[0], [], 0) is not None and case['probe_doc'] != 0 or (ref[0] == 'ok' and not case['probes']):
+                if got7[0] != 'ok' or got7[1] != ref[1]:
+                    vio.append({'mech': 'inclusions-share-state', 'what': f'{k1}/{k2}: !include of the same file, then an override of {k1}: got {util.short(got7[1:], 300)}, the same content written out by hand gives {util.short(_plain(ref[2]), 300)}; {what}'})
         # ---------------- (vi) key: !include [..]
         if base[0] == 'ok':
             master5 = os.path.join(mdir, 'master5.yaml')
@@ -241,16 +268,16 @@ def run(case):
             names = [f['name'] for f in case['files']]
             sib = os.path.join(root, 'tree', 'flat')
             spaths = [os.path.join(sib, nm) for nm in names]
-            for p, t in zip(spaths, texts):
+            for p, t in zip(spaths, utexts):
                 write(p, t)
             for nm in names:
                 write(os.path.join(cwd, nm), 'DECOY: true\n')
             master6 = os.path.join(sib, 'master6.yaml')
-            write(master6, '!include [' + ', '.join(names) + ']\n')
+            write(master6, '!include [' + ', '.join(names[i] for i in order) + ']\n')
             if case['decoy_mode'] == 'cwd_only':
                 i = case['cwd_only_idx']
                 os.remove(spaths[i])
-                write(os.path.join(cwd, names[i]), texts[i])         # found nowhere else: the working directory must serve it
+                write(os.path.join(cwd, names[i]), utexts[i])         # found nowhere else: the working directory must serve it
             del _opened[:]
             got = observe(lambda: Config.build(master6))
             _counts['files_opened_observed'] += len(_opened)
@@ -268,7 +295,7 @@ def run(case):
             subsets = [tuple(sorted(random.Random(util.sig(case)).sample(range(n), 2)))]
         for ss in subsets:
             for i in ss:
-                os.rename(paths[i], paths[i] + '.gone')
+                os.rename(upaths[i], upaths[i] + '.gone')
             try:
                 for mname, mfile in (('include_list', master), ('n_includes', master2)):
                     o = lib.outcome(lambda: Config.build(mfile))
@@ -288,7 +315,7 @@ def run(case):
                             vio.append({'mech': 'existing-file-reported-missing', 'what': f'{wrongly} exist but are reported missing: {util.short(msg, 300)}; {what}'})
             finally:
                 for i in ss:
-                    os.rename(paths[i] + '.gone', paths[i])
+                    os.rename(upaths[i] + '.gone', upaths[i])
     finally:
         os.chdir(cwd0)
         _root[0] = None
